@@ -42,13 +42,13 @@ type completion struct {
 // Breaker is the three-state reference machine of one circuit-breaking rule, written from the
 // property statement: driven only by completed requests and time.
 type Breaker struct {
-	R       BreakerRule
-	State   int
-	RetryAt uint64
-	Probes  uint64
+	R        BreakerRule
+	State    int
+	RetryAt  uint64
+	Probes   uint64
 	OpenedAt uint64
-	comps   []completion
-	Log     *[]Transition
+	comps    []completion
+	Log      *[]Transition
 }
 
 func NewBreaker(r BreakerRule, log *[]Transition) *Breaker {
